@@ -1374,19 +1374,19 @@ def generate_loopy(result: Array | AbstractResultWithNamedArrays | dict[str, Arr
     # optimization: remove any ImplStored tags on outputs to avoid redundant
     # store-load operations (see https://github.com/inducer/pytato/issues/415)
     # (This must be done after all the calls have been inlined)
-    # (one stripped copy per distinct output, so that an array returned under
-    # several names remains a single object)
-    output_sans_stored: dict[Array, Array] = {}
-    for output in outputs._data.values():
-        if output not in output_sans_stored:
-            output_sans_stored[output] = (
-                output.without_tags(ImplStored(), verify_existence=False)
-                if not isinstance(output, InputArgumentBase)
-                else output)
     outputs = DictOfNamedArrays(
-        {name: output_sans_stored[output]
+        {name: (output.without_tags(ImplStored(),
+                                    verify_existence=False)
+                if not isinstance(output,
+                                  InputArgumentBase)
+                else output)
          for name, output in outputs._data.items()},
         tags=outputs.tags)
+
+    # A stripped output may now be equal to another output or to an array
+    # inside the graph without being the same object.
+    from pytato.transform import deduplicate
+    outputs = deduplicate(outputs)
 
     compute_order = preproc_result.compute_order
 
